@@ -1,8 +1,10 @@
+pub mod map;
 pub mod vlq;
 
 pub fn dispatch(t: &[&str]) -> String {
     match t[0] {
         "vlq.enc" | "vlq.dec" | "vlq.range" => vlq::run(t),
+        "map.dec" | "map.enc" | "map.rt" | "map.lookup" => map::run(t),
         _ => "bad-op".into(),
     }
 }
